@@ -21,7 +21,7 @@ package service
 //@      raw[KNewQ(ctxHeight(ctx), requestContextID)] == bnil && raw[KNewH(requestContextID)] == bnil
 //@ ensures [C11,C16,C03] touches_no_other_context_queue_entry_or_binding: forall k Key :: {raw[k]}
 //@      ((is_KCtx(k) && k != KCtx(requestContextID)) || (is_KNewQ(k) && k != KNewQ(ctxHeight(ctx), requestContextID)) || (is_KNewH(k) && k != KNewH(requestContextID)) ||
-//@       (is_KExpQ(k) && keq_id(k) != requestContextID) || (is_KExpH(k) && k != KExpH(requestContextID)) || is_KBind(k) || is_KPricing(k) || is_KVol(k)) ==> raw[k] == old(raw)[k]
+//@       (is_KExpQ(k) && k != KExpQ(wrap_i64(ctxHeight(ctx) + requestContext.Timeout), requestContextID)) || (is_KExpH(k) && k != KExpH(requestContextID)) || is_KBind(k) || is_KPricing(k) || is_KVol(k)) ==> raw[k] == old(raw)[k]
 //@ ensures [C09] not_running_means_no_batch: requestContext.State != RUNNING ==> bal == old(bal) && cblog == old(cblog) &&
 //@      raw == old(raw)[KNewQ(ctxHeight(ctx), requestContextID) := bnil][KNewH(requestContextID) := bnil]
 //@ ensures [C06] skipped_without_charge_when_too_few_eligible: (let rc := requestContext in
@@ -74,7 +74,9 @@ package service
 //@ preserves wf: WF(raw)
 //@ preserves [C03] deposits_in_custody: depInv(raw, bal)
 //@ requires called_with_the_stored_context: ctxFound(raw, requestContextID) && requestContext == ctxOf(raw, requestContextID) && rng_RequestContext(requestContext)
-//@ requires [C16] pending_requests_are_well_formed: actInv(raw)
+//@ preserves [C16,C02,C01] pending_requests_are_well_formed: actInv(raw)
+//@ requires [C11] processed_entry_is_well_formed: raw[KExpQ(ctxHeight(ctx), requestContextID)] != bnil && expOK(raw, ctxHeight(ctx), requestContextID)
+//@ preserves [C11] new_batch_entries_well_formed: forall h Int, id Bytes :: {raw[KNewQ(h, id)]} newOK(raw, h, id)
 //@ loop IterateActiveRequests.0 invariant pos_in_range: 0 <= iterator_pos && iterator_pos <= itCount(iterator_snap, iterator_pfx)
 //@ loop IterateActiveRequests.0 invariant snapshot: iterator_snap == old(raw) && iterator_pfx == PActByCtx(requestContextID, batchCounter) && batchCounter == old(requestContext).BatchCounter && cblog == old(cblog)
 //@ loop IterateActiveRequests.0 invariant wf: WF(raw) && depInv(raw, bal)
@@ -243,6 +245,7 @@ package service
 //@ preserves [C03] deposits_in_custody: depInv(raw, bal)
 //@ requires [C16] pending_requests_are_well_formed: actInv(raw)
 //@ requires [C11] queues_are_well_formed: schedInv(raw)
+//@ ensures [C11,C10] every_expiry_due_in_this_block_is_processed: forall id Bytes :: {raw[KExpQ(ctxHeight(ctx), id)]} raw[KExpQ(ctxHeight(ctx), id)] == bnil
 //@ loop IterateExpiredRequestBatch.0 invariant pos_in_range: 0 <= iterator_pos && iterator_pos <= itCount(iterator_snap, iterator_pfx)
 //@ loop IterateExpiredRequestBatch.0 invariant snapshot: iterator_snap == old(raw) && iterator_pfx == PExpQ(ctxHeight(ctx)) && expirationHeight == ctxHeight(ctx)
 //@ loop IterateExpiredRequestBatch.0 invariant wf: WF(raw) && depInv(raw, bal) && actInv(raw)
@@ -252,11 +255,12 @@ package service
 //@ loop IterateNewRequestBatch.0 invariant pos_in_range: 0 <= iterator_pos && iterator_pos <= itCount(iterator_snap, iterator_pfx)
 //@ loop IterateNewRequestBatch.0 invariant snapshot: iterator_snap == call_raw && iterator_pfx == PNewQ(ctxHeight(ctx)) && requestBatchHeight == ctxHeight(ctx)
 //@ loop IterateNewRequestBatch.0 invariant wf: WF(raw) && depInv(raw, bal)
+//@ loop IterateNewRequestBatch.0 invariant [C11] expiry_phase_done: forall id Bytes :: {raw[KExpQ(ctxHeight(ctx), id)]} raw[KExpQ(ctxHeight(ctx), id)] == bnil
 //@ loop IterateNewRequestBatch.0 invariant new_entries_of_snapshot_ok: forall id Bytes :: {iterator_snap[KNewQ(ctxHeight(ctx), id)]} newOK(iterator_snap, ctxHeight(ctx), id)
 //@ loop IterateNewRequestBatch.0 invariant unvisited_contexts_untouched: forall id Bytes :: {raw[KCtx(id)]}
 //@      (iterator_snap[KNewQ(ctxHeight(ctx), id)] != bnil && itIdx(iterator_snap, iterator_pfx, KNewQ(ctxHeight(ctx), id)) >= iterator_pos) ==>
 //@      raw[KCtx(id)] == iterator_snap[KCtx(id)]
 //@ loop IterateExpiredRequestBatch.0 invariant new_entries_ok: forall h Int, id Bytes :: {raw[KNewQ(h, id)]} newOK(raw, h, id)
-//@ loop IterateExpiredRequestBatch.0 invariant unvisited_contexts_untouched: forall id Bytes :: {raw[KCtx(id)]}
+//@ loop IterateExpiredRequestBatch.0 invariant unvisited_contexts_untouched: forall id Bytes :: {raw[KCtx(id)]} {raw[KExpH(id)]} {raw[KNewH(id)]}
 //@      (iterator_snap[KExpQ(ctxHeight(ctx), id)] != bnil && itIdx(iterator_snap, iterator_pfx, KExpQ(ctxHeight(ctx), id)) >= iterator_pos) ==>
-//@      raw[KCtx(id)] == iterator_snap[KCtx(id)]
+//@      raw[KCtx(id)] == iterator_snap[KCtx(id)] && raw[KExpH(id)] == iterator_snap[KExpH(id)] && raw[KNewH(id)] == iterator_snap[KNewH(id)]
